@@ -109,25 +109,27 @@ NOT_BUILT_REASON = "check not built yet in this round (planned as bounded-exhaus
 ALL = ["C%02d" % i for i in range(1, 21)]
 
 
-# Dimensions added after the seeded-change rounds (DESIGN.md 12.5 - 12.8); appended to the level text of each check.
+# Dimensions added after the seeded-change rounds (DESIGN.md 12.5 - 12.8c); appended to the level text of each check.
 EXTENSIONS = {
- "C01": " Also: scopes with up to 65 (thorough 257) live bindings, every one read back; calls of functions with up to 33 (65) parameters of mixed widths, every parameter returned; integer constants of every width in all three notations with byte-asymmetric values. Every run of a program is also repeated on a second instance that is satisfied before commit() was ever called, and the first run is repeated after other runs (same bytes).",
- "C02": " Also: never-inspected witnesses far larger than any example (list bounds 1024..4096, byte strings of 33 / 65 / 100 bytes); satisfy on an instance on which commit() was never called.",
+ "C09": " Also: a body that re-binds its accumulator and reads it in nested arms; a counter-blind body; two loop functions with equal body text and different parameter lists in one program (roles exchanged, counters of different widths, both orders).",
+ "C13": " Also: every modelled jet of arity >= 2 called with variables of which one (every position in turn) was re-bound between its first binding and the call.",
+ "C01": " Also: scopes with up to 65 (thorough 257) live bindings, every one read back; calls of functions with up to 33 (65) parameters of mixed widths, every parameter returned; integer constants of every width in all three notations with byte-asymmetric values. Every run of a program is also repeated on a second instance that is satisfied before commit() was ever called, and the first run is repeated after other runs (same bytes). A degenerate-size universe D (empty and one-element arrays, zero-width components, Option<()>, Either<(), ()>, lists of bound 2) at depth 1.",
+ "C02": " Also: never-inspected witnesses far larger than any example (list bounds 1024..4096, byte strings of 33 / 65 / 100 bytes); satisfy on an instance on which commit() was never called. Programs with the same polymorphic expression twice in one environment at two types nothing pins down (twins), next to a fully inspected witness.",
  "C03": " Bases include programs with 4..33-parameter functions (P7), 70 live bindings (P8) and one name at three types in nested scopes (P9); repeated parameter names at every pair of positions; every parameter dropped in turn.",
  "C04": " Bases include P7 (wide signatures), P8 (deep environments), P9 (shadow depth) and P6 (every builtin alias against its documented definition).",
- "C05": " Also: a second naming scheme with names of different lengths; 4-/5-tuples, odd-length arrays and lists in the pool; and a family in which a never-inspected witness stands next to an inspected one: on the satisfy_with_env path the verdict must depend on the inspected one alone (the unpruned path shows known finding D1(ii) there).",
+ "C05": " Also: a second naming scheme with names of different lengths; 4-/5-tuples, odd-length arrays and lists in the pool; and a family in which a never-inspected witness stands next to an inspected one: on the satisfy_with_env path the verdict must depend on the inspected one alone (the unpruned path shows known finding D1(ii) there). A seventh supply per name: the expected value at a type differing only where the value has nothing (None's payload, the other side of a Left / Right, elements of an empty list).",
  "C06": " Also: every structural (AST) near miss of the small static programs through the program entry point; the engine is built with overflow checks, so an unintended arithmetic wrap is a panic.",
  "C07": " Also (types only): list bounds 1024..65536, arrays up to 4097 elements, tuples up to 100 components.",
- "C08": " Also: list literals whose elements are direct witness expressions (all / every other element).",
+ "C08": " Also: list literals whose elements are direct witness expressions (all / every other element). List source param::XS written directly as the fold operand (instantiated form run, literal form evaluated by R2).",
  "C10": " Also: sibling blocks with nothing bound between them (tuple components, call arguments, consecutive statement blocks; S3) and sequences of 40..70 (thorough 130) statements in one scope (S4).",
- "C11": " Also: the library's own 256-bit decimal printer / parser (num::U256) on 812 boundary values.",
- "C12": " Also: tuples of up to 9 components, arrays up to 9, nested n-ary argument types; names of different lengths; one name at two nominal types of equal layout must be rejected.",
- "C14": " Also: dbg! arguments with more leaves than any integer (arrays of 256 / 257 / 1000 bytes, a list of 600); a same-layout twin program is compiled with debug symbols on the same thread immediately before each program.",
- "C15": " Also: values and maps in which one hex text occurs at two types (u256 / [u8; 32], u128 / [u8; 16]).",
- "C17": " Also: a comment alphabet of 26 bodies (runs of stars before the terminator, terminator look-alikes, openers and // inside, line breaks, code, non-ASCII) at every token boundary at once and glued in at one boundary at a time; an alias name declared twice versus a fresh second name versus both definitions inlined.",
- "C18": " Now 14 arm kinds (including destructured witnesses of 33 / 48 / 65 bytes, [u16; 5], a 5-tuple) = 196 pairs; programs that branch on the environment (tx_lock_height / tx_lock_time / tx_lock_distance / tx_is_final) walked through every rotation of the environment list on ONE instance; the reference verdict comes from a second instance without history, and the first satisfy_with_env call is repeated after 5 and 23 other calls (same bytes).",
- "C19": " Also: other API calls interleaved between re-compilations; one TemplateProgram object instantiated with argument maps A, B, A and clones of it, each compared with a template without history; the static programs P7 (commit encoding > 4 KiB) through simc.",
- "C20": " Ten line structures now (also lone CR), a fourth text variant (lone CR appended); for a message that quotes one line the underlined columns must be columns of that line.",
+ "C11": " Also: the library's own 256-bit decimal printer / parser (num::U256) on 812 boundary values. Sequences of two and three valid literals with equal digit strings across notations in one scope (program and witness module).",
+ "C12": " Also: tuples of up to 9 components, arrays up to 9, nested n-ary argument types; names of different lengths; one name at two nominal types of equal layout must be rejected. A fifth option per parameter: an argument whose type differs only at a position its value does not inhabit.",
+ "C14": " Also: dbg! arguments with more leaves than any integer (arrays of 256 / 257 / 1000 bytes, a list of 600); a same-layout twin program is compiled with debug symbols on the same thread immediately before each program. unwrap_left / unwrap_right at sums with different sides: the symbol carries the argument type and map_value returns the argument.",
+ "C15": " Also: values and maps in which one hex text occurs at two types (u256 / [u8; 32], u128 / [u8; 16]). Both printed modules in one file (both orders, same names in both maps), read by both parsers.",
+ "C17": " Also: a comment alphabet of 26 bodies (runs of stars before the terminator, terminator look-alikes, openers and // inside, line breaks, code, non-ASCII) at every token boundary at once and glued in at one boundary at a time; an alias name declared twice versus a fresh second name versus both definitions inlined. Names reused across unrelated scopes: every injective choice of parameter / binder names from a pool containing the caller's names.",
+ "C18": " Now 14 arm kinds (including destructured witnesses of 33 / 48 / 65 bytes, [u16; 5], a 5-tuple) = 196 pairs; programs that branch on the environment (tx_lock_height / tx_lock_time / tx_lock_distance / tx_is_final) walked through every rotation of the environment list on ONE instance; the reference verdict comes from a second instance without history, and the first satisfy_with_env call is repeated after 5 and 23 other calls (same bytes). 16 arm kinds = 256 pairs (a witness read after / before a complete inner match inside an arm).",
+ "C19": " Also: other API calls interleaved between re-compilations; one TemplateProgram object instantiated with argument maps A, B, A and clones of it, each compared with a template without history; the static programs P7 (commit encoding > 4 KiB) through simc. Look-alike neighbours in the corpus: pairs of programs reusing an alias / function / witness / variable name with another meaning, adjacent in compilation order, both orders.",
+ "C20": " Ten line structures now (also lone CR), a fourth text variant (lone CR appended); for a message that quotes one line the underlined columns must be columns of that line. Text variants below two empty lines and below an empty CRLF line.",
 }
 
 def main():
